@@ -33,12 +33,12 @@ type tcase struct {
 }
 
 func Run(c *core.Ctx) {
-	c.Rule = "templ.URL inputs: every string over the 24-symbol adversarial alphabet up to the tier's length, XSS vectors and their mutations, random byte strings; distinct non-trivial = distinct inputs containing ':' (the sanitiser's only branch point); generator dispatch: every letter-case variant of a/href and form/action plus non-matching pairs"
+	c.Rule = "templ.URL inputs: every string over the 24-symbol adversarial alphabet up to the tier's length, XSS vectors and their mutations, random byte strings; distinct non-trivial = distinct inputs containing ':' (the sanitiser's only branch point); generator dispatch: every letter-case variant of a/href and form/action plus non-matching pairs; rendered href/action (end to end): every sequence up to the tier's length over 28 symbols (plain bytes and complete / unterminated / unknown / double-escaped character references), the vectors, and scheme-shaped strings whose code points are rewritten at random as named / legacy / decimal / hexadecimal / padded / unterminated references with whitespace references sprinkled in, through the URL-sink templates in rotation (vectors through all), plus a stride sample of the sanitiser's inputs; distinct non-trivial there = distinct (template, input) with '&' in the input"
 	c.Trusted = append(c.Trusted, "specification spec/Whatwg.v (WHATWG scheme extraction; compared with node's URL parser in the thorough tier)",
 		"extraction: ExtrOcamlBasic only; ocaml/driver.ml (hex line protocol, byte<->int by constructor index, asserted at start-up)",
 		"Go harness internal/c04 and the Go toolchain")
 	c.Assume = append(c.Assume, "strings are byte strings; a browser's scheme extraction is the WHATWG basic URL parser's (spec/Whatwg.v)",
-		"character references in the attribute value are decoded by the HTML parser before URL parsing; the value templ writes is html-escaped (C01), so the URL the browser parses is the sanitiser's output")
+		"the browser decodes the character references of the attribute value (spec/HtmlRefs.v in attribute mode with the standard's 2231 names, spec/HtmlEntities.v) before URL parsing; that the URL it then parses is the sanitiser's output is NOT assumed: it is theorem C04_rendered_value_sound and is checked on every rendered document")
 	c.Proofs()
 
 	maxLen := c.N(4, 5)
@@ -173,6 +173,7 @@ func Run(c *core.Ctx) {
 	c.Sample(map[string]string{"input": cases[nExh/2], "impl": outs[nExh/2]})
 
 	dispatch(c)
+	rendered(c, cases, nExh)
 	if !c.Quick() {
 		nodeOracle(c, cases)
 	}
